@@ -492,7 +492,7 @@ func (g *PipeGen) join(s Schema, joinDepth int) (*Op, Schema) {
 	rt := tables[g.Rng.Intn(len(tables))]
 	var rkinds []string
 	for n := g.Rng.Intn(3); n > 0; n-- {
-		k := []string{"where", "project", "extend", "sort", "take", "summarize", "as", "top"}[g.Rng.Intn(8)]
+		k := []string{"where", "project", "extend", "sort", "take", "summarize", "as", "top", "count"}[g.Rng.Intn(9)]
 		rkinds = append(rkinds, k)
 	}
 	if joinDepth > 0 && g.Rng.Intn(3) == 0 {
@@ -569,6 +569,12 @@ func (g *PipeGen) join(s Schema, joinDepth int) (*Op, Schema) {
 				}
 				op.Conds = append(op.Conds, c)
 			case 2:
+				if g.Rng.Intn(2) == 0 {
+					// a condition on one side only, bare or under not(), beside the others
+					one := []*E{Bin("==", l, Num("1")), Call("not", Bin("==", l, Num("1"))), Bin("!=", r, Num("0")), Call("isnull", l), Call("not", Call("isnull", r)), Bin(">", r, Num("0"))}[g.Rng.Intn(6)]
+					op.Conds = append(op.Conds, one)
+					break
+				}
 				op.Conds = append(op.Conds, Bin("==", l, Bin("+", r, Num("1"))))
 			case 3:
 				op.Conds = append(op.Conds, Bin("and", Bin("==", l, r), Bin(">", l, Num("0"))))
